@@ -73,3 +73,167 @@ Example c24_nonvacuous :
   NoDup (link_pairs G) /\ oilp_feasible G [(0,0);(1,1)] = true /\ oilp_feasible G [(0,0);(1,0)] = false /\
   oilp_feasible G [(0,1);(1,0)] = false /\ oilp_cost G [(0,0);(1,1)] = (8, 1).
 Proof. vm_compute. repeat split; auto. repeat constructor; simpl; intuition congruence. Qed.
+
+(* ================================================================== Deepening: the ROWS
+   M_IlpRows models, one record per `pb += ...` statement, the constraint rows and the linear
+   objective that ilp_cgdp / factor_graph_lp_model hand to PuLP (compared row by row with the
+   captured LpProblem on every check).  The theorems below discharge, for oilp_cgdp, the
+   assumption the theorems above rest on ("feasibility/objective of the real ILP at an integral
+   point are [oilp_feasible]/[oilp_obj]").
+   Vocabulary (P_IlpRows / P_IlpRowsObj):
+     rows_sat s rows      the 0/1 assignment s : lvar -> bool satisfies every row
+     key_product s k      for k = (c1,a1,c2,a2):  s (VB c1 a1 c2 a2) = s (VX c1 a1) && s (VX c2 a2)
+     valid_dist I D       D hosts every computation of I on a declared agent
+     x_indicator I s D    s (VX c a) = (D c =? a) for every computation c and agent a of I
+     betas_products G s   key_product s k for every beta the loop creates
+     links_wf G           the ends of every link are computations of the graph
+   Guards: agent names are pairwise distinct (NoDup (agent_ids _)), links_wf. *)
+From PyDcop Require Import M_IlpRows P_IlpRows P_IlpRowsObj.
+
+(* (1) every 0/1 assignment satisfying all rows has each beta equal to the product of its two x
+   variables (pinned-end shortcut rows included): the vector is determined by its x part *)
+Theorem oilp_rows_force_product : forall G s,
+  rows_sat s (oilp_rows G) = true ->
+  forall kb, In kb (beta_keys G) -> key_product s (fst kb).
+Proof. exact oilp_rows_force_product_l. Qed.
+
+(* (2) a 0/1 vector satisfies all rows iff its x part is the indicator of a distribution (read off
+   by [oilp_decode]) meeting the hard rules [oilp_feasible] and the betas are the products *)
+Theorem oilp_rows_feasible_iff : forall G s, NoDup (agent_ids (g_inst G)) ->
+  (rows_sat s (oilp_rows G) = true <->
+   valid_dist (g_inst G) (oilp_decode G s) /\ x_indicator (g_inst G) s (oilp_decode G s) /\
+   oilp_feasible G (oilp_decode G s) = true /\ betas_products G s).
+Proof. exact oilp_rows_feasible_iff_l. Qed.
+
+(* conversely every distribution meeting the hard rules is a solution of the rows *)
+Theorem oilp_rows_encode_sat : forall G D, NoDup (agent_ids (g_inst G)) ->
+  valid_dist (g_inst G) D -> oilp_feasible G D = true ->
+  rows_sat (oilp_encode D) (oilp_rows G) = true.
+Proof. exact oilp_encode_sat_l. Qed.
+
+(* the linear objective (coefficients of _objective, betas de-duplicated by the loop's
+   `in betas: continue`) at the indicator of D is [oilp_obj G D] *)
+Theorem oilp_rows_objective_is_obj : forall G D,
+  NoDup (agent_ids (g_inst G)) -> links_wf G -> valid_dist (g_inst G) D ->
+  oilp_lin_obj G (oilp_encode D) = oilp_obj G D.
+Proof. exact oilp_lin_obj_encode_l. Qed.
+
+(* (3) [oilp_optimal_is_min_cost] on top of the rows: the solver is an oracle returning a 0/1
+   solution of the rows that minimises the linear objective; the distribution read off it meets
+   the hard rules and is cost-minimal among all distributions meeting them *)
+Theorem oilp_rows_optimal_is_min_cost : forall G sstar,
+  NoDup (agent_ids (g_inst G)) -> links_wf G -> NoDup (link_pairs G) ->
+  rows_sat sstar (oilp_rows G) = true ->
+  (forall s, rows_sat s (oilp_rows G) = true ->
+             scal (oilp_lin_obj G sstar) <= scal (oilp_lin_obj G s)) ->
+  valid_dist (g_inst G) (oilp_decode G sstar) /\ oilp_feasible G (oilp_decode G sstar) = true /\
+  forall D, valid_dist (g_inst G) D -> oilp_feasible G D = true ->
+            scal (oilp_cost G (oilp_decode G sstar)) <= scal (oilp_cost G D).
+Proof. exact oilp_rows_optimal_is_min_cost_l. Qed.
+
+(* non-vacuity of the row-level statements: the instance of [c24_nonvacuous] (computation 0 pinned
+   on agent 0) has 8 rows (two pins, two pinned-end shortcut rows, capacities, hosted-once) which
+   accept the indicator of one distribution and reject two others, and a non-zero objective *)
+Example c24_rows_nonvacuous :
+  let G := mkG (mkInst [mkNode 0 0 2 [[0;1]]; mkNode 1 0 2 [[0;1]]]
+                       [mkAg 0 3 1 [(0, 0)] 2 []; mkAg 1 3 1 [] 3 []] [((0,1),4)] 1 [] [])
+               [[0;1]] in
+  NoDup (agent_ids (g_inst G)) /\ links_wf G /\ List.length (oilp_rows G) = 8%nat /\
+  rows_sat (oilp_encode [(0,0);(1,1)]) (oilp_rows G) = true /\
+  rows_sat (oilp_encode [(0,0);(1,0)]) (oilp_rows G) = false /\
+  rows_sat (oilp_encode [(0,1);(1,0)]) (oilp_rows G) = false /\
+  oilp_lin_obj G (oilp_encode [(0,0);(1,1)]) = (8, 1).
+Proof.
+  vm_compute. repeat split; auto.
+  - repeat constructor; simpl; intuition congruence.
+  - intros l c [<-|[]] [<-|[<-|[]]]; auto.
+Qed.
+
+(* ------------------------------------------------------------------ ilp_fgdp rows (P_IlpRows2)
+   [fgdp_rows G] is None exactly when two agents have a zero hosting cost for the same computation
+   (no ILP is built: ImpossibleDistributionException), else Some [fgdp_rows_of G].  Computations
+   with a zero-cost agent are pre-hosted and have no x/f variable.
+     on_var / on_fac I s c k   "end c is on agent k" as the rows see it (x/f variable, or the
+                               pre-hosting agent)
+     alpha_product I s l k     s (VA i j k) = on_var I s i k && on_fac I s j k, (i, j) = the variable
+                               and factor ends of link l
+     fg_wf G                   agent names distinct, computation names distinct, every node is a
+                               variable or a factor computation, no conflicting zero hosting costs
+     fg_links_wf G             every link joins a variable and a factor computation of the graph
+     nf_indicator I s D        for every computation c that is not pre-hosted and every agent a:
+                               (s (VX c a) or s (VF c a), by kind) = (D c =? a) *)
+From PyDcop Require Import P_IlpRows2.
+
+(* (1) no hypothesis on the instance *)
+Theorem fgdp_rows_force_product : forall G s,
+  rows_sat s (fgdp_rows_of G) = true ->
+  forall l g, In l (g_links G) -> In g (i_agents (g_inst G)) -> alpha_product (g_inst G) s l (g_id g).
+Proof. exact fgdp_rows_force_product_l. Qed.
+
+(* (2) *)
+Theorem fgdp_rows_feasible_iff : forall G s, fg_wf G ->
+  (rows_sat s (fgdp_rows_of G) = true <->
+   valid_dist (g_inst G) (fgdp_decode G s) /\ nf_indicator (g_inst G) s (fgdp_decode G s) /\
+   fgdp_feasible G (fgdp_decode G s) = true /\ alphas_products G s).
+Proof. exact fgdp_rows_feasible_iff_l. Qed.
+
+Theorem fgdp_rows_encode_sat : forall G D, fg_wf G -> fg_links_wf G ->
+  valid_dist (g_inst G) D -> fgdp_feasible G D = true ->
+  rows_sat (fgdp_encode D) (fgdp_rows_of G) = true.
+Proof. exact fgdp_encode_sat_l. Qed.
+
+(* the linear objective (- load(variable, factor) per alpha) at any solution whose x/f part is the
+   indicator of D is [fgdp_obj G D] *)
+Theorem fgdp_rows_objective_is_obj : forall G s D, fg_wf G -> fg_links_wf G ->
+  valid_dist (g_inst G) D -> nf_indicator (g_inst G) s D -> fixed_ok (g_inst G) D ->
+  alphas_products G s -> fgdp_lin_obj G s = fst (fgdp_obj G D).
+Proof. exact fgdp_lin_obj_at. Qed.
+
+(* (3) [fgdp_optimal_is_min_cost] on top of the rows *)
+Theorem fgdp_rows_optimal_is_min_cost : forall G sstar, fg_wf G -> fg_links_wf G -> sym_load G ->
+  rows_sat sstar (fgdp_rows_of G) = true ->
+  (forall s, rows_sat s (fgdp_rows_of G) = true -> fgdp_lin_obj G sstar <= fgdp_lin_obj G s) ->
+  valid_dist (g_inst G) (fgdp_decode G sstar) /\ fgdp_feasible G (fgdp_decode G sstar) = true /\
+  forall D, valid_dist (g_inst G) D -> fgdp_feasible G D = true ->
+            fst (fgdp_cost G (fgdp_decode G sstar)) <= fst (fgdp_cost G D).
+Proof. exact fgdp_rows_optimal_is_min_cost_l. Qed.
+
+(* non-vacuity: two variables, one factor, two agents; variable 0 is pre-hosted on agent 0 (zero
+   hosting cost), so its link uses the pinned-end shortcut rows; one distribution is accepted,
+   one violating "every agent hosts something" and one moving the pre-hosted variable are not *)
+Example c24_fgdp_rows_nonvacuous :
+  let G := mkG (mkInst [mkNode 0 0 1 [[102;0]]; mkNode 1 0 1 [[1;102]]; mkNode 102 1 1 [[102;0];[1;102]]]
+                       [mkAg 0 2 1 [(0, 0)] 1 []; mkAg 1 2 1 [] 1 []]
+                       [((0, 102), 5); ((102, 0), 5); ((1, 102), 2); ((102, 1), 2)] 0 [] [])
+               [[102;0];[1;102]] in
+  fg_wf G /\ fg_links_wf G /\ sym_load G /\ fgdp_rows G = Some (fgdp_rows_of G) /\
+  List.length (fgdp_rows_of G) = 13%nat /\
+  rows_sat (fgdp_encode [(0,0);(1,1);(102,0)]) (fgdp_rows_of G) = true /\
+  rows_sat (fgdp_encode [(0,0);(1,0);(102,0)]) (fgdp_rows_of G) = false /\
+  fgdp_decode G (fgdp_encode [(0,1);(1,0);(102,0)]) = [(0,0);(1,0);(102,0)] /\
+  fgdp_lin_obj G (fgdp_encode [(0,0);(1,1);(102,0)]) = -5.
+Proof.
+  cbv zeta. split; [|split; [|split; [|repeat split; vm_compute; reflexivity]]].
+  - constructor.
+    + vm_compute. repeat constructor; simpl; intuition congruence.
+    + vm_compute. repeat constructor; simpl; intuition congruence.
+    + intros nd [<-|[<-|[<-|[]]]]; vm_compute; auto.
+    + vm_compute; reflexivity.
+  - intros l [<-|[<-|[]]]; (split; [eexists; eexists; reflexivity|]).
+    + split; [exists (mkNode 0 0 1 [[102;0]]) | exists (mkNode 102 1 1 [[102;0];[1;102]])];
+        vm_compute; auto 6.
+    + split; [exists (mkNode 1 0 1 [[1;102]]) | exists (mkNode 102 1 1 [[102;0];[1;102]])];
+        vm_compute; auto 6.
+  - intros x y [E|[E|[]]]; inversion E; subst; reflexivity.
+Qed.
+
+(* the guards are evaluated as booleans on every generated instance by the correspondence run
+   (M_IlpRows.guardsb inside check_case); they imply the hypotheses of the theorems above *)
+From PyDcop Require Import P_IlpRows3.
+Theorem oilp_guardsb_sound : forall G,
+  oilp_guardsb G = true -> NoDup (agent_ids (g_inst G)) /\ links_wf G.
+Proof. exact oilp_guardsb_sound_l. Qed.
+
+Theorem fgdp_guardsb_sound : forall G,
+  fgdp_guardsb G = true -> fixed_conflict (g_inst G) = false -> fg_wf G /\ fg_links_wf G.
+Proof. exact fgdp_guardsb_sound_l. Qed.
